@@ -635,9 +635,9 @@ class Engine(object):
         c = PObj(o.cls, name=o.name)
         for k, v in o.fields.items():
             if isinstance(v, PList):
-                c.fields[k] = PList(v.val if isinstance(v.val, SSeq) else list(v.val))
+                c.fields[k] = self.snapshot_list(v)
             elif isinstance(v, PObj):
-                c.fields[k] = self.snapshot_obj(v)
+                c.fields[k] = v              # referenced objects keep their identity (snapshot is one level deep)
             elif isinstance(v, PDict):
                 c.fields[k] = PDict(v.val)
             elif isinstance(v, PMap):
@@ -645,6 +645,11 @@ class Engine(object):
             else:
                 c.fields[k] = v
         return c
+
+    def snapshot_list(self, v):
+        if isinstance(v.val, SSeq):
+            return PList(v.val)
+        return PList([self.snapshot_list(x) if isinstance(x, PList) else x for x in v.val])
 
     def check_raise(self, exc, frame):
         c = self.c
@@ -1197,10 +1202,28 @@ class Engine(object):
 
     def ex_BoolOp(self, e, frame):
         if getattr(self, 'in_spec', False):
-            vals = [self.ev(x, frame) for x in e.values]
-            if all(isinstance(v, (SBool, bool)) for v in vals):
-                ts = [term_of(v) for v in vals]
-                return SBool(z3.And(*ts) if isinstance(e.op, ast.And) else z3.Or(*ts))
+            # contract expressions: concrete operands short-circuit as in Python, symbolic ones combine logically
+            is_and = isinstance(e.op, ast.And)
+            terms = []
+            for x in e.values:
+                v = self.ev(x, frame)
+                if isinstance(v, SBool):
+                    terms.append(v.t)
+                    continue
+                if is_sym(v) or isinstance(v, (PObj, PList, PDict)):
+                    t = self.truth(v)
+                    if isinstance(t, bool):
+                        v = t
+                    else:
+                        terms.append(t)
+                        continue
+                if is_and and not v:
+                    return False if terms or isinstance(v, bool) else v
+                if not is_and and v:
+                    return True if terms or isinstance(v, bool) else v
+            if not terms:
+                return is_and
+            return SBool(z3.And(*terms) if is_and else z3.Or(*terms))
         v = None
         for x in e.values:
             v = self.ev(x, frame)
@@ -1286,7 +1309,10 @@ class Engine(object):
             if nm == 'forall' or nm == 'exists':
                 return self.quantifier(nm, e, frame)
             if nm == 'implies':
-                a = self.coerce(self.ev(e.args[0], frame), Bool)
+                av = self.ev(e.args[0], frame)
+                if not is_sym(av) and not isinstance(av, (PObj, PList, PDict)) and not av:
+                    return True                      # concretely false antecedent: consequent not evaluated
+                a = self.coerce(av if isinstance(av, (SBool, bool)) else bool(self.truth(av)) if not is_sym(av) else av, Bool)
                 b = self.coerce(self.ev(e.args[1], frame), Bool)
                 return SBool(z3.Implies(a, b))
             if nm == 'unfold':
@@ -1490,6 +1516,9 @@ class Engine(object):
             else:
                 r = a is b
             return r if k == 'Is' else (not r)
+        if k in ('Eq', 'NotEq') and (isinstance(a, (PObj, PExt)) or isinstance(b, (PObj, PExt))):
+            r = a is b
+            return r if k == 'Eq' else (not r)
         if k in ('In', 'NotIn'):
             r = self.contains(b, a)
             if k == 'In':
@@ -2054,6 +2083,8 @@ class Engine(object):
             q = '%s:%s' % (a.__module__, a.__qualname__)
             if q in self.registry:
                 return self.call_contract(self.registry[q], [recv] + list(args), kwargs, node)
+            if q in self.c.env.get('__extern__', {}):
+                return self.call(self.c.env['__extern__'][q], [recv] + list(args), kwargs, node)
             if q in self.c.env.get('__inline__', ()):
                 # a private helper of the same class, inlined: its body is part of the verified text (stated)
                 from .. import scratch as _scratch
@@ -2356,8 +2387,22 @@ def load_function(modname, funcname, src_root, harness_source=None):
     return node, sha, seg
 
 
+def expand_type(ty):
+    """all concrete alternatives of a (possibly nested) type with OneOf choices"""
+    if isinstance(ty, OneOf):
+        out = []
+        for a in ty.alts:
+            out.extend(expand_type(a))
+        return out
+    if isinstance(ty, Obj) and any(isinstance(f, (OneOf, Obj)) for f in ty.fields.values()):
+        names = list(ty.fields)
+        alts = [expand_type(ty.fields[n]) for n in names]
+        return [Obj(ty.cls, dict(zip(names, combo)), name=ty.name) for combo in itertools.product(*alts)]
+    return [ty]
+
+
 def typecases(params):
     names = list(params.keys())
-    alts = [p.alts if isinstance(p, OneOf) else (p,) for p in params.values()]
+    alts = [expand_type(p) for p in params.values()]
     for combo in itertools.product(*alts):
         yield dict(zip(names, combo))
